@@ -1,4 +1,4 @@
-import BM.Props.C06
+import BM.Props.C06c
 import BM.Props.SrcPin.C06
 /- Top module of property C06: its theorems (BM.Props.C06) and the statement of which units of /repo's
    source its model and proofs were written against (BM/Props/SrcPin/C06.lean, re-checked against the
